@@ -281,6 +281,24 @@ OutBag == BagOfSeq([i \in DOMAIN last.out |-> <<last.out[i].p, last.out[i].op>>]
 (* every describe/register call: exactly the transformed operations reach exactly the right recorders *)
 InvDeliveries == IsCall => OutBag = Expected(cfg, last.op)
 
+(* Purity.  What a call delivers is a function of (configuration, call) only: no layer keeps state that one call
+   could leave behind for another (Run takes the history only through `regs`, which merely names probe handles).
+   Checked: the deliveries of every call, whatever calls preceded it, equal those of the same call made first on a
+   fresh instance.  Consequence used by the real-parallel conformance stage (every layer is a Sync Recorder called
+   from many threads): concurrent calls cannot influence each other, so after ANY interleaving of calls the probes
+   have received exactly the sum of the per-call deliveries (HammerExpected).  FilterMemo.tla is the concurrent
+   counter-model: a filter that remembers its last decision in two cells breaks exactly this. *)
+Pairs(dl) == BagOfSeq([i \in DOMAIN dl |-> <<dl[i].p, dl[i].op>>])
+InvPure == IsCall => OutBag = Pairs(Run(cfg, last.op, [p \in ProbeIds(cfg) |-> 0]).dl)
+(* totals after a set of calls made in any order / concurrently: rows = [o, kind, name, calls]; every register is
+   followed by one update through the returned handle *)
+HammerExpected(c, rows) ==
+  LET z == [p \in ProbeIds(c) |-> 0]
+      one(r) == LET dl == Run(c, [o |-> r.o, kind |-> r.kind, name |-> r.name], z).dl
+                IN {[p |-> dl[i].p, o |-> r.o, kind |-> r.kind, name |-> dl[i].op.name, n |-> r.calls,
+                     incs |-> IF r.o = "register" THEN r.calls ELSE 0] : i \in DOMAIN dl}
+  IN UNION {one(rows[j]) : j \in DOMAIN rows}
+
 (* the four layer laws spelled out for a single layer directly over probes *)
 OnlyProbes(s) == \A i \in DOMAIN s : s[i].t = "probe"
 InvPrefixLaw ==
